@@ -45,6 +45,13 @@ class PatternEncoderBase(LazyEncoder):
         # Encode
         super().set_settings(settings)
 
+    def _check_design_vars(self, design_vars: List[DiscreteDV]):
+        # A pattern that would be encoded with single-option design variables is not applicable to these settings
+        try:
+            super()._check_design_vars(design_vars)
+        except RuntimeError as e:
+            raise InvalidPatternEncoder(str(e))
+
     def _try_settings(self, settings: MatrixGenSettings):
         self._settings = settings
         self._effective_settings = settings.get_effective_settings()
